@@ -315,6 +315,11 @@ impl Property for HistProp {
                             if !s_a.is_empty() {
                                 fail!("wrong:unsat-under-assumptions-but-sat", "assumptions are satisfiable, e.g. {:?}", s_a[0]);
                             }
+                            if let CoreRes::ConflictingAssumptions(msg) = &core {
+                                if !crate::props::opt::has_contradictory_pair(&acc, preds) {
+                                    fail!("wrong:conflicting-assumptions-report", "'{}' but no two assumptions of {:?} exclude each other", msg, preds);
+                                }
+                            }
                             if let CoreRes::Core(core) = core {
                                 last_was_core = true;
                                 if let Some(s) = sols.iter().find(|s| core.iter().all(|p| p.holds(s[p.var] as i64))) {
